@@ -1067,6 +1067,45 @@ class Trial:
             return rng.choice(choices)
         return "load-again" if getattr(self, "loaded_ok", True) else "simulate-rise"
 
+    def interlude_on_another_dataset(self):
+        """The user points the SAME path at another, already prepared dataset for a
+        while (a `current.sqlite3` symlink re-pointed, a file moved aside and moved
+        back: modification times are preserved), runs a command there -- one that
+        fails after its expensive part, or one that succeeds -- and switches back.
+        Nothing is demanded of the other dataset here; what matters is that the
+        history of THIS dataset goes on unaffected (state kept per user or per path
+        rather than per dataset would leak across)."""
+        rng = self.rng
+        other = os.path.join(self.dir, "other-dataset.sqlite")
+        if not os.path.exists(other):
+            _copy_with_sidecars(self.base, other)
+            for name in ("classify-other", "set-zeta-grid"):
+                ex = execute(other, op_argv(name, self.knobs, self.load_argv), dict(self.knobs, cache_pages=None),
+                             None, self.dir)
+                if not ex.outcome.ok:
+                    self.stats["interlude_other_dataset_not_preparable"] += 1
+                    os.remove(other)
+                    return False
+            old = os.stat(self.base).st_mtime - 86400.0
+            os.utime(other, (old, old))
+        held = self.db + ".held-aside"
+        for suffix in _sidecars_of(self.db):
+            if not suffix.endswith(".log"):
+                return False                     # not while a journal is pending
+        os.replace(self.db, held)
+        shutil.copy2(other, self.db)             # same path, the other dataset, its old modification time
+        which = rng.choice(["rise-offgrid", "recession-offgrid", "rise-absent", "rise", "recession"])
+        ex = execute(self.db, op_argv(which, self.knobs, self.load_argv), self.knobs, None, self.dir)
+        self.stats["interludes_on_another_dataset"] += 1
+        self.logline("interlude", which, ex.outcome.brief())
+        for suffix in _sidecars_of(self.db):
+            if suffix != ".held-aside" and not suffix.endswith(".log"):
+                os.remove(self.db + suffix)
+        os.remove(self.db)
+        os.replace(held, self.db)                # this dataset is back, modification time untouched
+        self.ops.append({"op": "interlude", "argv": [which], "fault": None})
+        return True
+
     def _drop_unusable_reference(self, op):
         """If `rise -r X` / `recession -r X` was refused fault-free although its
         prerequisites are complete (X is not on the assembled curve), later
@@ -1095,7 +1134,11 @@ class Trial:
         self.do_load(load_fault)
         length = rng.randint(8, 22)
         position = 0
+        interlude_done = False
         while position < length:
+            if (not interlude_done and not self.deferred and "classify" in self.acked and "set-zeta-grid" in self.acked
+                    and ("rise" not in self.acked or "recession" not in self.acked) and rng.random() < 0.12):
+                interlude_done = self.interlude_on_another_dataset()
             op = self.next_op(position, length)
             argv = op_argv(op, self.knobs, self.load_argv)
             _ex, retry = self.do_op(op, argv, "draw")
@@ -1180,6 +1223,18 @@ class Trial:
         self.do_load(first.get("fault"))
         pending = None
         for rec in ops[1:]:
+            if rec["op"] == "interlude":
+                # re-enact with the recorded command (the PRNG of a replay is not the original one)
+                which = rec["argv"][0]
+                saved_choice = self.rng.choice
+                self.rng.choice = lambda seq, which=which: which if which in seq else saved_choice(seq)
+                try:
+                    self.interlude_on_another_dataset()
+                    self.ops.pop()
+                    self.ops.append(dict(rec))
+                finally:
+                    self.rng.choice = saved_choice
+                continue
             expect = pending if (rec.get("retry_of_previous") and pending is not None) else None
             _ex, pending = self.do_op(rec["op"], rec["argv"], rec.get("fault"), expect=expect,
                                       defer=bool(rec.get("defer_recovery")))
